@@ -22,7 +22,7 @@ func init() {
 	vlib.Register(&vlib.Prop{
 		ID:    "C16",
 		Level: "exploration",
-		Cases: func(tier string) int { return vlib.TierN(tier, 640, 240000) },
+		Cases: func(tier string) int { return vlib.TierN(tier, 640, 100000) },
 		Rule: "case idx runs class idx%10 of {message/equals, message/copy, cqrs/json, cqrs/proto, cqrs/gogo, forwarder, reply, forwarder/pubsub, cqrs/proto-schema, cqrs/gogo-schema} on a batch of generated inputs " +
 			"(counter `inputs`; 7 hand-written small pairs + 48 messages x 14 pair mutations for equals, 64 messages for copy, 64 values + a fixed 16-step size ladder (encodings of 0..9000 bytes growing and shrinking through 4 KiB, marshaled back to back, all messages held) per marshaler case, " +
 			"24 random + 8 edge-grid messages through forwarder.Publisher -> captured envelope -> one real Forwarder (scripted ends), 12 random + 8 edge-grid messages through forwarder.Publisher -> GoChannel -> Forwarder -> GoChannel -> plain subscriber (forwarder/pubsub, batches judged as multisets), 64 replies). " +
